@@ -191,6 +191,158 @@ theorem binary_irrev_cstr_init (k r p fr fp fv n : ℝ) (hk : 0 < k) (hr : 0 ≤
   exact cstrWith_init _ _ k r p fr fp fv n hk.ne' (Real.sqrt_pos.mpr hfv).ne' (Real.sqrt_pos.mpr hrad).ne' _
     ((cstrArg_mem_Ioo_iff k r fr fv hk hr hfv hfr).mpr hdom) (cstrArg_eq k r fr fv hfv hrad)
 
+/-! ## the closed form is THE solution (linear rate equations)
+
+For the three linear rate equations every differentiable function that satisfies the rate equation for all `t` and starts at the stated
+initial concentration IS the closed form (Grönwall / `ODE_solution_unique_univ`): the `_ode` + `_init` theorems characterise it. -/
+
+theorem pseudo_irrev_unique (kf prod major minor : ℝ) (y : ℝ → ℝ)
+    (hy : ∀ t, HasDerivAt y (kf * major * (minor - (y t - prod))) t) (h0 : y 0 = prod) :
+    y = fun t => pseudoIrrev t kf prod major minor := by
+  refine affine_ode_unique (-(kf * major)) (kf * major * (minor + prod)) _ _ (fun t => (hy t).congr_deriv (by ring))
+    (fun t => (pseudo_irrev_ode t kf prod major minor).congr_deriv (by ring)) ?_
+  rw [h0, pseudo_irrev_init]
+
+theorem pseudo_rev_unique (kf kb prod major minor : ℝ) (hl : kb + kf * major ≠ 0) (y : ℝ → ℝ)
+    (hy : ∀ t, HasDerivAt y (kf * major * (minor - (y t - prod)) - kb * y t) t) (h0 : y 0 = prod) :
+    y = fun t => pseudoRev t kf kb prod major minor := by
+  refine affine_ode_unique (-(kb + kf * major)) (kf * major * (minor + prod)) _ _ (fun t => (hy t).congr_deriv (by ring))
+    (fun t => (pseudo_rev_ode t kf kb prod major minor hl).congr_deriv (by ring)) ?_
+  rw [h0, pseudo_rev_init kf kb prod major minor hl]
+
+/-- reactant of the first-order stirred tank -/
+theorem unary_irrev_cstr_reactant_unique (k r p fr fp fv : ℝ) (hk : fv + k ≠ 0) (y : ℝ → ℝ)
+    (hy : ∀ t, HasDerivAt y (-k * y t + fv * (fr - y t)) t) (h0 : y 0 = r) :
+    y = fun t => (unaryIrrevCstr t k r p fr fp fv).1 := by
+  refine affine_ode_unique (-(fv + k)) (fv * fr) _ _ (fun t => (hy t).congr_deriv (by ring))
+    (fun t => (unary_irrev_cstr_ode_reactant t k r p fr fp fv hk).congr_deriv (by ring)) ?_
+  rw [h0, unary_irrev_cstr_init k r p fr fp fv hk]
+
+/-- non-vacuity: the closed form itself satisfies the hypotheses -/
+example : (fun t : ℝ => pseudoIrrev t 3 5 11 13) = fun t => pseudoIrrev t 3 5 11 13 :=
+  pseudo_irrev_unique 3 5 11 13 _ (fun t => pseudo_irrev_ode t 3 5 11 13) (pseudo_irrev_init 3 5 11 13)
+
+/-! ## the closed form is THE solution (quadratic rate equations, and the full first-order tank)
+
+For the Riccati-type rate equations the right-hand side is only locally Lipschitz: on every interval `[start, T]` any function that
+satisfies the rate equation there and starts at the stated initial concentration coincides with the generated closed form
+(`quadratic_ode_unique`: both are bounded on the compact interval, the quadratic is Lipschitz on a bounded set, Grönwall). -/
+
+section Uniqueness
+open Set
+theorem unary_irrev_cstr_unique (k r p fr fp fv : ℝ) (hk : fv + k ≠ 0) (yA yB : ℝ → ℝ)
+    (hA : ∀ t, HasDerivAt yA (-k * yA t + fv * (fr - yA t)) t) (hB : ∀ t, HasDerivAt yB (k * yA t + fv * (fp - yB t)) t)
+    (h0A : yA 0 = r) (h0B : yB 0 = p) :
+    (fun t => (yA t, yB t)) = fun t => unaryIrrevCstr t k r p fr fp fv := by
+  have hAeq := unary_irrev_cstr_reactant_unique k r p fr fp fv hk yA hA h0A
+  have hBeq : yB = fun t => (unaryIrrevCstr t k r p fr fp fv).2 := by
+    refine affine_ode_unique' (-fv) (fun t => k * (unaryIrrevCstr t k r p fr fp fv).1 + fv * fp) _ _
+      (fun t => ?_) (fun t => (unary_irrev_cstr_ode_product t k r p fr fp fv hk).congr_deriv (by ring)) ?_
+    · have := hB t
+      rw [congrFun hAeq t] at this
+      exact this.congr_deriv (by ring)
+    · rw [h0B, unary_irrev_cstr_init k r p fr fp fv hk]
+  funext t
+  exact Prod.ext (congrFun hAeq t) (congrFun hBeq t)
+
+theorem dimerization_unique (kf c t0 T : ℝ) (hkf : 0 < kf) (hc : 0 < c) (y : ℝ → ℝ)
+    (hy : ∀ t ∈ Icc t0 T, HasDerivAt y (-2 * kf * y t ^ 2) t) (h0 : y t0 = c) :
+    EqOn y (fun t => dimerizationIrrev t kf c t0) (Icc t0 T) := by
+  refine quadratic_ode_unique (-2 * kf) 0 0 t0 T _ _ (fun t ht => (hy t ht).congr_deriv (by ring))
+    (fun t ht => (dimerization_ode t kf c t0 hkf hc ht.1).congr_deriv (by ring)) ?_
+  rw [h0, dimerization_init kf c t0 hc.ne']
+
+theorem binary_irrev_unique (kf prod major minor T : ℝ) (hkf : 0 < kf) (hminor : 0 < minor) (hlt : minor < major) (y : ℝ → ℝ)
+    (hy : ∀ t ∈ Icc 0 T, HasDerivAt y (kf * (major - (y t - prod)) * (minor - (y t - prod))) t) (h0 : y 0 = prod) :
+    EqOn y (fun t => binaryIrrev t kf prod major minor) (Icc 0 T) := by
+  refine quadratic_ode_unique kf (-(kf * (major + minor + 2 * prod))) (kf * (major + prod) * (minor + prod)) 0 T _ _
+    (fun t ht => (hy t ht).congr_deriv (by ring))
+    (fun t ht => (binary_irrev_ode t kf prod major minor hkf hminor hlt ht.1).congr_deriv (by ring)) ?_
+  rw [h0, binary_irrev_init kf prod major minor hminor.ne' hlt.ne']
+
+theorem binary_rev_unique (kf kb prod major minor T : ℝ) (hkf : 0 < kf) (hkb : 0 < kb) (hprod : 0 ≤ prod) (hmajor : 0 ≤ major)
+    (hminor : 0 ≤ minor) (y : ℝ → ℝ)
+    (hy : ∀ t ∈ Icc 0 T, HasDerivAt y (kf * (major - (y t - prod)) * (minor - (y t - prod)) - kb * y t) t) (h0 : y 0 = prod) :
+    EqOn y (fun t => binaryRev t kf kb prod major minor) (Icc 0 T) := by
+  refine quadratic_ode_unique kf (-(kf * (major + minor + 2 * prod)) - kb) (kf * (major + prod) * (minor + prod)) 0 T _ _
+    (fun t ht => (hy t ht).congr_deriv (by ring))
+    (fun t ht => (binary_rev_ode t kf kb prod major minor hkf hkb hprod hmajor hminor ht.1).congr_deriv (by ring)) ?_
+  rw [h0, binary_rev_init kf kb prod major minor hkf hkb hprod hmajor hminor]
+
+theorem binary_irrev_cstr_reactant_unique (k r p fr fp fv n T : ℝ) (hk : 0 < k) (hr : 0 ≤ r) (hfv : 0 < fv) (hfr : 0 ≤ fr)
+    (hdom : 2 * k * r ^ 2 + fv * r < fv * fr) (y : ℝ → ℝ)
+    (hy : ∀ t ∈ Icc 0 T, HasDerivAt y (fv * fr - fv * y t - 2 * k * y t ^ 2) t) (h0 : y 0 = r) :
+    EqOn y (fun t => (binaryIrrevCstr t k r p fr fp fv n).1) (Icc 0 T) := by
+  refine quadratic_ode_unique (-(2 * k)) (-fv) (fv * fr) 0 T _ _ (fun t ht => (hy t ht).congr_deriv (by ring))
+    (fun t _ => (binary_irrev_cstr_ode_reactant t k r p fr fp fv n hk hr hfv hfr hdom).congr_deriv (by ring)) ?_
+  rw [h0, binary_irrev_cstr_init k r p fr fp fv n hk hr hfv hfr hdom]
+
+example : EqOn (fun t : ℝ => binaryIrrev t 3 5 13 11) (fun t => binaryIrrev t 3 5 13 11) (Icc 0 2) :=
+  binary_irrev_unique 3 5 13 11 2 (by norm_num) (by norm_num) (by norm_num) _
+    (fun t ht => binary_irrev_ode t 3 5 13 11 (by norm_num) (by norm_num) (by norm_num) ht.1)
+    (binary_irrev_init 3 5 13 11 (by norm_num) (by norm_num))
+
+/-- second-order stirred tank below the steady state: reactant AND product are determined by the rate equations and the start -/
+theorem binary_irrev_cstr_unique (k r p fr fp fv n T : ℝ) (hk : 0 < k) (hr : 0 ≤ r) (hfv : 0 < fv) (hfr : 0 ≤ fr)
+    (hdom : 2 * k * r ^ 2 + fv * r < fv * fr) (yA yB : ℝ → ℝ)
+    (hA : ∀ t ∈ Icc 0 T, HasDerivAt yA (fv * fr - fv * yA t - 2 * k * yA t ^ 2) t)
+    (hB : ∀ t ∈ Icc 0 T, HasDerivAt yB (fv * fp + n * k * yA t ^ 2 - fv * yB t) t) (h0A : yA 0 = r) (h0B : yB 0 = p) :
+    EqOn (fun t => (yA t, yB t)) (fun t => binaryIrrevCstr t k r p fr fp fv n) (Icc 0 T) := by
+  have hAeq := binary_irrev_cstr_reactant_unique k r p fr fp fv n T hk hr hfv hfr hdom yA hA h0A
+  have hBeq : EqOn yB (fun t => (binaryIrrevCstr t k r p fr fp fv n).2) (Icc 0 T) := by
+    refine affine_ode_unique_on (-fv) (fun t => fv * fp + n * k * (binaryIrrevCstr t k r p fr fp fv n).1 ^ 2) 0 T _ _
+      (fun t ht => ?_) (fun t _ => (binary_irrev_cstr_ode_product t k r p fr fp fv n hk hr hfv hfr hdom).congr_deriv (by ring)) ?_
+    · have := hB t ht
+      rw [hAeq ht] at this
+      exact this.congr_deriv (by ring)
+    · rw [h0B, binary_irrev_cstr_init k r p fr fp fv n hk hr hfv hfr hdom]
+  intro t ht
+  exact Prod.ext (hAeq ht) (hBeq ht)
+end Uniqueness
+
+/-! ## binary_irrev_cstr above the steady state: specification of the missing branch
+
+Above the steady state (`fv·fr < 2·k·r² + fv·r`) the Python returns nan / raises (known finding).  `binaryIrrevCstrAbove`
+(`Proofs/Integrated.lean`, hand-written, NOT generated) is the same expression with `coth = 1/tanh` for `tanh` and the integration constant
+`artanh(1/arg)`: it is real for every `t ≥ 0`, solves both rate equations and starts at `(r, p)`.  It is the target a repair of the
+finding has to meet (and what the sympy backend evaluates through complex arithmetic; the harness checks that numerically). -/
+
+/-- reactant above the steady state: `A' = fv·fr − fv·A − 2·k·A²` for every `t ≥ 0` -/
+theorem binary_irrev_cstr_above_ode_reactant (t k r p fr fp fv n : ℝ) (hk : 0 < k) (hr : 0 ≤ r) (hfv : 0 < fv) (hfr : 0 ≤ fr)
+    (habove : fv * fr < 2 * k * r ^ 2 + fv * r) (ht : 0 ≤ t) :
+    HasDerivAt (fun s => (binaryIrrevCstrAbove s k r p fr fp fv n).1)
+      (fv * fr - fv * (binaryIrrevCstrAbove t k r p fr fp fv n).1 - 2 * k * (binaryIrrevCstrAbove t k r p fr fp fv n).1 ^ 2) t := by
+  have hrad : 0 < fv + fr * (8 * k) := by positivity
+  exact cstrAbove_fst_hasDerivAt _ _ _ t k r p fr fp fv n hk.ne' (Real.sq_sqrt hfv.le) (Real.sq_sqrt hrad.le)
+    (cstrAbove_tanh_ne t k r fr fv hk hr hfv hfr habove ht)
+
+/-- product above the steady state: `B' = fv·fp + n·k·A² − fv·B` for every `t ≥ 0` -/
+theorem binary_irrev_cstr_above_ode_product (t k r p fr fp fv n : ℝ) (hk : 0 < k) (hr : 0 ≤ r) (hfv : 0 < fv) (hfr : 0 ≤ fr)
+    (habove : fv * fr < 2 * k * r ^ 2 + fv * r) (ht : 0 ≤ t) :
+    HasDerivAt (fun s => (binaryIrrevCstrAbove s k r p fr fp fv n).2)
+      (fv * fp + n * k * (binaryIrrevCstrAbove t k r p fr fp fv n).1 ^ 2 - fv * (binaryIrrevCstrAbove t k r p fr fp fv n).2) t := by
+  have hrad : 0 < fv + fr * (8 * k) := by positivity
+  exact cstrAbove_snd_hasDerivAt _ _ _ t k r p fr fp fv n hk.ne' (Real.sq_sqrt hfv.le) (Real.sq_sqrt hrad.le)
+    (cstrAbove_tanh_ne t k r fr fv hk hr hfv hfr habove ht)
+
+/-- initial values above the steady state: `(A, B)(0) = (r, p)` -/
+theorem binary_irrev_cstr_above_init (k r p fr fp fv n : ℝ) (hk : 0 < k) (hr : 0 ≤ r) (hfv : 0 < fv) (hfr : 0 ≤ fr)
+    (habove : fv * fr < 2 * k * r ^ 2 + fv * r) :
+    binaryIrrevCstrAbove 0 k r p fr fp fv n = (r, p) := by
+  have hrad : 0 < fv + fr * (8 * k) := by positivity
+  have hmem := cstrAbove_arg_mem k r fr fv hk hr hfv hfr habove
+  have hq : fv + 4 * k * r ≠ 0 := by positivity
+  exact cstrAbove_init _ _ k r p fr fp fv n hk.ne' (Real.sqrt_pos.mpr hfv).ne' (Real.sqrt_pos.mpr hrad).ne' hq _
+    ⟨hmem.1, lt_trans hmem.2 one_pos⟩ rfl
+
+/-- the coordinator's witness of the known finding `binary_irrev_cstr(t, 2.0, 1.0, 0.5, 0.2, 1.5, 2.5)` is in this region -/
+example : binaryIrrevCstrAbove (0:ℝ) 2 1 0.5 0.2 1.5 2.5 1 = (1, 0.5) :=
+  binary_irrev_cstr_above_init 2 1 0.5 0.2 1.5 2.5 1 (by norm_num) (by norm_num) (by norm_num) (by norm_num) (by norm_num)
+example : HasDerivAt (fun s : ℝ => (binaryIrrevCstrAbove s 2 1 0.5 0.2 1.5 2.5 1).1)
+    (2.5 * 0.2 - 2.5 * (binaryIrrevCstrAbove (1:ℝ) 2 1 0.5 0.2 1.5 2.5 1).1 - 2 * 2 * (binaryIrrevCstrAbove (1:ℝ) 2 1 0.5 0.2 1.5 2.5 1).1 ^ 2) 1 :=
+  binary_irrev_cstr_above_ode_reactant 1 2 1 0.5 0.2 1.5 2.5 1 (by norm_num) (by norm_num) (by norm_num) (by norm_num) (by norm_num)
+    (by norm_num)
+
 /-! ## no growing exponential on the documented domain
 
 `…ExpArgs` (generated with the same `let`-chain as the value function) lists the argument of every `be.exp` call.  On the documented
